@@ -23,7 +23,8 @@ RULE = ("per database (posc, simple; nocat for UnitDatabase.Convert) and per qua
         "every route: Scalar.GetValue, Quantity.ConvertScalarValue/Convert, UnitDatabase.Convert on "
         "float/int/list/tuple/ndarray and with (unit,exp) lists, Array.GetValues incl. tuple-of-tuples, CreateCopy, "
         "ChangeScalars, category default in a unit, IndexAsScalar, ChangingIndex, ConvertToCurrent, "
-        "ConvertScalarToCurrent; containers of length 0-5; plus derived/empty quantities and a malformed stream; "
+        "ConvertScalarToCurrent; containers of length 0-5; int64/int32 ndarrays with magnitudes beyond 2**63/coefficient "
+        "from every unit with a coefficient >= 2**31; plus derived/empty quantities and a malformed stream; "
         "distinct = distinct model line; non-trivial = succeeded with from-unit != to-unit")
 EXHAUSTIVE = {"quick": False, "thorough": False}
 ASSUMPTIONS = [
@@ -184,7 +185,7 @@ def _mk_val(v):
     if v["k"] == "nd":
         xs = v["xs"]
         if xs and all(isinstance(x, int) for x in xs):
-            return np.array(xs)
+            return np.array(xs, dtype=(np.int32 if v.get("dtype") == "int32" else np.int64))
         return np.array(xs, dtype=float)
     items = [tuple(e) if isinstance(e, list) else e for e in v["es"]]
     return tuple(items) if v["k"] == "tuple" else items
@@ -358,7 +359,8 @@ def _num_agree(rh, ym):
     if r != r or r in (math.inf, -math.inf):
         return "non-finite result %r" % r
     if m == 0:
-        return None if exact(r) == y else "value %r should be exactly %s (handed through unchanged)" % (r, float(y))
+        # (an int64 beyond 2**53 handed through unchanged is read back as the nearest double)
+        return None if (exact(r) == y or r == float(y)) else "value %r should be exactly %s (handed through unchanged)" % (r, float(y))
     return None if close(r, y, m) else "float %r is not within K*eps*M of the exact %s" % (r, float(y))
 
 
@@ -471,10 +473,13 @@ def _values(db, qt, u, rng, n, ints=True):
     return [rng.choice(pool) for _ in range(n)]
 
 
-def _small_int(y):
-    """int64 ndarrays are kept small: an int-dtype array times a table coefficient written as a Python int
-    (e.g. 31558150000000 for Ma) wraps around in int64 - reported finding `ndarray-int64-overflow`"""
-    return int(max(-1000.0, min(1000.0, y)))
+def _int_items(xs, rng):
+    """an integer ndarray (int64): the numbers of `xs` truncated, plus a large magnitude now and then (a table
+    coefficient written as a Python int would wrap around in int64: repaired defect 43dda34)"""
+    out = [int(max(-2.0 ** 62, min(2.0 ** 62, y))) for y in xs]
+    if out and rng.random() < 0.6:
+        out[rng.randrange(len(out))] = rng.choice((1, -1)) * 10 ** rng.randrange(3, 18) + rng.randrange(0, 1000)
+    return out
 
 
 def _flat(kind, xs):
@@ -550,7 +555,7 @@ def _route_cases(ctx, kind, qt, c, u, v, rng, routes):
         if r == "db_convert":
             cq = rng.choice([qt] + ([c] if c else []))
             for val in (dict(k="num", x=x), dict(k="num", x=rng.choice((7, -2, 0, 12))), _flat("list", xs), _flat("tuple", xs),
-                        _flat("nd", [float(y) for y in xs] if rng.random() < 0.8 else [_small_int(y) for y in xs])):
+                        _flat("nd", [float(y) for y in xs] if rng.random() < 0.7 else _int_items(xs, rng))):
                 yield _case("db_convert", db=kind, cq=dict(k="str", c=cq), to_arg=dict(k="str", u=v), val=val, _nt=nt,
                             **{"from": dict(k="str", u=u)})
             continue
@@ -753,6 +758,56 @@ def _malformed_stream(ctx, salt, n):
                         changes=[dict(name=rng.choice(("alpha", "gamma")), value=None, unit=bad_v)], _nt=False)
 
 
+def _int_array_stream(ctx, salt, per_row):
+    """integer ndarrays (int64 and int32) through every route that takes an ndarray, from every unit whose formulas
+    hold a coefficient >= 2**31 ('Ma', 'kpsi2', 'tcf', ...) with magnitudes beyond 2**63/coefficient, and from
+    seeded other units with large magnitudes"""
+    rng = ctx.fresh_rng("C02int" + salt)
+    for kind in ("posc", "nocat"):
+        db = ctx.dbs[kind]
+        rows = []
+        for r in ctx.data[kind]["units"]:
+            big = max(abs(r["tobase"][1]), abs(r["tobase"][2]), abs(r["frombase"][1]), abs(r["frombase"][2]))
+            if big >= 2 ** 31 and r["sym"] in db.unit_to_unit_info:
+                rows.append((r["qtype"], r["sym"], int(big)))
+        allrows = [(r["qtype"], r["sym"], 1) for r in ctx.data[kind]["units"] if r["sym"] in db.unit_to_unit_info]
+        rows = rows + [rng.choice(allrows) for _ in range(max(20, len(rows) // 3))]
+        for qt, u, big in rows:
+            units = [i.unit for i in db.quantity_types[qt]]
+            for _ in range(per_row):
+                v = rng.choice([units[0], rng.choice(units)])
+                w = u
+                if rng.random() < 0.25:
+                    w, v = v, u          # the big row as the target
+                lim = min(2 ** 62, (2 ** 63 // max(big, 1)) * rng.randrange(2, 60) + rng.randrange(0, 1000))
+                lim = max(lim, 5000)
+                xs = [rng.choice((7, -3, 0, lim, -lim, rng.randrange(-lim, lim))) for _ in range(rng.randrange(1, 6))]
+                xs[rng.randrange(len(xs))] = rng.choice((lim, -lim))
+                val = dict(k="nd", xs=xs)
+                if rng.random() < 0.3:
+                    val = dict(k="nd", xs=[max(-2 ** 31 + 1, min(2 ** 31 - 1, x)) for x in xs], dtype="int32")
+                nt = w != v
+                yield _case("db_convert", db=kind, cq=dict(k="str", c=qt), to_arg=dict(k="str", u=v), val=val, _nt=nt,
+                            **{"from": dict(k="str", u=w)})
+                cats = ctx.cats_of_type[kind].get(qt, [])
+                if not cats:
+                    continue
+                q = _sq(rng.choice(cats), w)
+                z = rng.randrange(5)
+                if z == 0:
+                    yield _case("array_getvalues", db=kind, q=q, val=val, unit=v, _nt=nt)
+                elif z == 1:
+                    yield _case("q_convert", db=kind, q=q, val=val, to=v, _nt=nt)
+                elif z == 2:
+                    yield _case("array_create_copy", db=kind, q=q, val=val, unit=v, category=None, _nt=nt)
+                elif z == 3 and len(xs) >= 2:
+                    yield _case("index_as_scalar", db=kind, dim=len(xs), q=q, val=val, index=rng.randrange(-len(xs), len(xs)),
+                                quantity=_sq(rng.choice(cats), v), _nt=nt)
+                elif len(xs) >= 2:
+                    yield _case("changing_index", db=kind, dim=len(xs), q=q, val=val, index=rng.randrange(-len(xs), len(xs)),
+                                nv=dict(k="scalar", q=_sq(rng.choice(cats), v), x=2.5), use_value_unit=True, _nt=nt)
+
+
 def cases(ctx):
     quick = ctx.tier == "quick"
     ctx.notes["streams"] = {}
@@ -761,6 +816,7 @@ def cases(ctx):
     for name, gen in (("main_all_routes", _main_stream(ctx, "corr", 3 if quick else 4, False, None)),
                       ("all_pairs_sampled_routes", iter(()) if quick else _main_stream(ctx, "pairs", 0, True, 4)),
                       ("derived_empty", _derived_stream(ctx, "corr", 150 if quick else 1500)),
+                      ("integer_ndarrays", _int_array_stream(ctx, "corr", 4 if quick else 25)),
                       ("malformed", _malformed_stream(ctx, "corr", 400 if quick else 4000))):
         for c in gen:
             out.append(c)
@@ -771,7 +827,7 @@ def cases(ctx):
         t = c["_t"]
         k = c["op"]
         if "val" in t:
-            k += ":" + t["val"]["k"] + ("-of-tuples" if any(isinstance(e, list) for e in t["val"].get("es", [])) else "")
+            k += ":" + t["val"]["k"] + ("-int" if t["val"]["k"] == "nd" and t["val"]["xs"] and all(isinstance(x, int) for x in t["val"]["xs"]) else "") + ("-of-tuples" if any(isinstance(e, list) for e in t["val"].get("es", [])) else "")
         if c["op"] == "db_convert" and (t["from"]["k"] != "str" or t["to_arg"]["k"] != "str"):
             k += ":exps"
         ops[k] = ops.get(k, 0) + 1
@@ -1106,29 +1162,7 @@ def oracle(c, ctx):
 def search(ctx):
     quick = ctx.tier == "quick"
     yield from _main_stream(ctx, "search", 2 if quick else 4, False, None)
+    yield from _int_array_stream(ctx, "search", 6)
     yield from _derived_stream(ctx, "search", 300)
     if not quick:
         yield from _main_stream(ctx, "search2", 0, True, 3)
-
-
-# ----------------------------------------------------------------------------------------- reported finding
-FINDING_INT64 = dict(op="db_convert", _t=dict(db="posc", cq=dict(k="str", c="time"), to_arg=dict(k="str", u="d"),
-                                              val=dict(k="nd", xs=[7, -7817731]), _nt=True, **{"from": dict(k="str", u="Ma")}))
-
-
-def _is_big_int_array(case):
-    v = case.get("_t", {}).get("val") or {}
-    xs = v.get("xs") or []
-    return v.get("k") == "nd" and bool(xs) and all(isinstance(x, int) for x in xs) and max(abs(x) for x in xs) > 1000
-
-
-def matches_known(entry, case, failure):
-    """known-finding matcher: input class = an int-dtype ndarray holding a value beyond +-1000 (int64 wrap-around
-    of `coefficient * array` for table coefficients written as Python ints)"""
-    return entry.get("id") == "C02-ndarray-int64-overflow" and _is_big_int_array(case)
-
-
-def replay_finding(entry, ctx):
-    if entry.get("id") == "C02-ndarray-int64-overflow":
-        return oracle(FINDING_INT64, ctx)
-    return None
